@@ -2,10 +2,11 @@ package main
 
 import (
 	"fmt"
-	"os"
 	"go/constant"
 	"go/token"
 	"go/types"
+	"math/big"
+	"os"
 	"strings"
 
 	"golang.org/x/tools/go/ssa"
@@ -57,6 +58,31 @@ func init() {
 	nonNilErr := func(fr *Frame, args []*Val, argv []ssa.Value, res *Val) {
 		fr.ex.q.assume(not(eq(res.C[0].T, "0")))
 	}
+	// fmt.Sprintf with a constant format: the result is at least as long as the
+	// format's literal text (verbs may expand to nothing)
+	externModels["fmt.Sprintf"].apply = func(fr *Frame, args []*Val, argv []ssa.Value, res *Val) {
+		if c := fr.ex.P.constOf(argv[0]); c != nil && c.Value != nil {
+			f := constantString(c)
+			n := 0
+			for i := 0; i < len(f); i++ {
+				if f[i] != '%' {
+					n++
+					continue
+				}
+				i++
+				if i < len(f) && f[i] == '%' {
+					n++
+					continue
+				}
+				for i < len(f) && strings.IndexByte("+-# 0123456789.[]*", f[i]) >= 0 {
+					i++
+				}
+			}
+			fr.ex.q.assume(fr.ex.ar.cmp(">=", idxT, res.C[2].T, fr.ex.idx(int64(n))))
+		}
+	}
+	externModels["crypto/md5.New"] = &externModel{pure: true, apply: nonNilErr}
+	externModels[nazaPrefix+"pkg/nazamd5.Md5"] = &externModel{pure: true}
 	externModels["errors.New"].apply = nonNilErr
 	externModels["fmt.Errorf"].apply = nonNilErr
 	// atomics write through their pointer argument
@@ -78,7 +104,35 @@ func init() {
 	for _, n := range []string{"strings.TrimSpace", "strings.TrimPrefix", "strings.TrimSuffix", "strings.Trim", "strings.TrimLeft", "strings.TrimRight"} {
 		externModels[n].apply = lenLE(0)
 	}
-	externModels["strings.ToLower"].apply = func(fr *Frame, args []*Val, argv []ssa.Value, res *Val) {}
+	// TrimPrefix with a literal prefix: exactly s[len(prefix):] when s has the prefix, else s
+	externModels["strings.TrimPrefix"].apply = func(fr *Frame, args []*Val, argv []ssa.Value, res *Val) {
+		ex := fr.ex
+		ex.q.assume(ex.ar.cmp("<=", idxT, res.C[2].T, args[0].C[2].T))
+		c := ex.P.constOf(argv[1])
+		if c == nil || c.Value == nil {
+			return
+		}
+		lit := constantString(c)
+		if len(lit) > 16 {
+			return
+		}
+		n := ex.idx(int64(len(lit)))
+		cs := []string{ex.ar.cmp(">=", idxT, args[0].C[2].T, n)}
+		for i := 0; i < len(lit); i++ {
+			b := ex.loadLeaf(fr.st, ex.s8Key(), ex.elemAddr(args[0], ex.idx(int64(i))), false)
+			cs = append(cs, eq(b, ex.ar.litI(IntT{8, false}, int64(lit[i]))))
+		}
+		hp := and(cs...)
+		ex.q.assume(eq(res.C[0].T, args[0].C[0].T))
+		ex.q.assume(eq(res.C[1].T, ite(hp, ex.ar.add(idxT, args[0].C[1].T, n), args[0].C[1].T)))
+		ex.q.assume(eq(res.C[2].T, ite(hp, ex.ar.sub(idxT, args[0].C[2].T, n), args[0].C[2].T)))
+	}
+	// case mapping keeps emptiness (not necessarily the byte length)
+	caseMap := func(fr *Frame, args []*Val, argv []ssa.Value, res *Val) {
+		fr.ex.q.assume(eq(eq(res.C[2].T, fr.ex.idx(0)), eq(args[0].C[2].T, fr.ex.idx(0))))
+	}
+	externModels["strings.ToLower"].apply = caseMap
+	externModels["strings.ToUpper"].apply = caseMap
 	idxRange := func(fr *Frame, args []*Val, argv []ssa.Value, res *Val) {
 		ar := fr.ex.ar
 		// -1 <= r <= len(s) - len(sep)   (r >= 0 implies r + len(sep) <= len(s))
@@ -125,6 +179,20 @@ func init() {
 	externModels["io.ReadFull"] = &externModel{mods: bufOnly}
 	externModels["io.ReadAtLeast"] = &externModel{mods: bufOnly}
 	externModels["encoding/hex.Decode"] = &externModel{mods: bufOnly}
+}
+
+// constOf: v as a compile-time constant, looking through loads of write-once
+// constant globals.
+func (P *Prog) constOf(v ssa.Value) *ssa.Const {
+	switch x := v.(type) {
+	case *ssa.Const:
+		return x
+	case *ssa.UnOp:
+		if g, ok := x.X.(*ssa.Global); ok && x.Op == token.MUL {
+			return P.constGlobals[g]
+		}
+	}
+	return nil
 }
 
 // pureExternal: callee whose call has no modelled heap effect.
@@ -209,6 +277,9 @@ func (fr *Frame) shouldInline(callee *ssa.Function, sp *FuncSpec) bool {
 	if sp != nil && (sp.Inline || sp.Trusted) {
 		return sp.Inline
 	}
+	if sp != nil && sp.Opaque {
+		return false
+	}
 	// a callee under contract is still executed in place when it is small and
 	// loop-free (its body is the strongest contract); the caller can insist on
 	// contract-only reasoning with `modular` (ghost lemmas do)
@@ -268,9 +339,13 @@ func (fr *Frame) call(in ssa.Instruction, c *ssa.CallCommon, res ssa.Value, pos 
 	if res != nil {
 		rl = ex.ls.of(res.Type())
 	}
+	var callee *ssa.Function
 	setRes := func(v *Val) {
 		if res != nil {
 			fr.set(res, v)
+			if callee != nil && rl != nil {
+				fr.recordCallResult(callee, rl, v)
+			}
 		}
 	}
 	if b, ok := c.Value.(*ssa.Builtin); ok {
@@ -282,7 +357,13 @@ func (fr *Frame) call(in ssa.Instruction, c *ssa.CallCommon, res ssa.Value, pos 
 		args[i] = fr.val(a)
 	}
 	site := fr.locText(pos, "call")
-	callee := c.StaticCallee()
+	callee = c.StaticCallee()
+	if callee != nil {
+		for _, n := range ghostCallNames(callee) {
+			fr.st.ghost["called:"+n] = "true"
+		}
+		fr.recordCallArgs(callee, c.Args, args)
+	}
 	if callee == nil && c.IsInvoke() {
 		// devirtualisation: the interface value was made from a known concrete
 		// type in this function (or an inlined caller passed it down)
@@ -321,6 +402,17 @@ func (fr *Frame) call(in ssa.Instruction, c *ssa.CallCommon, res ssa.Value, pos 
 				if i < len(c.Args) && implicitNonNil(p) && !safeNonNil(c.Args[i]) && !fr.nonNilParam(c.Args[i]) {
 					fr.oblige("nil", site+":arg "+p.Name(), not(eq(args[i].T, "nil")), pos)
 				}
+			}
+		}
+		if sp != nil && len(sp.Assumes) > 0 {
+			for _, c := range sp.Assumes {
+				cx := &Ctx{fr: fr, ex: ex, st: fr.st, pkg: callee.Pkg.Pkg, vals: map[string]*Val{}, types: map[string]types.Type{}, facts: true, spec: sp}
+				for i, p := range callee.Params {
+					cx.vals[p.Name()] = args[i]
+					cx.types[p.Name()] = p.Type()
+				}
+				ex.q.assume(implies(fr.reach[fr.cur], cx.evalBool(c.Expr)))
+				ex.trusted["assumed, not checked: "+shortFn(callee)+": "+c.Src] = true
 			}
 		}
 		if fr.shouldInline(callee, sp) {
@@ -534,6 +626,7 @@ func (fr *Frame) callByContract(callee *ssa.Function, sp *FuncSpec, args []*Val,
 		rv = ex.freshVal(rl, "r_"+callee.Name())
 		ex.assumeAllocated(rl, rv, fr.st.ctr)
 		fr.set(res, rv)
+		fr.recordCallResult(callee, rl, rv)
 	}
 	var resTuple *Val
 	if rv != nil {
@@ -726,19 +819,117 @@ func (ex *Exec) copyCellsToS8(st *State, dst, src *Val, n string) {
 	ex.usesLambda = true
 }
 
-// copyElems copies n elements of layout el from src to dst.
-func (ex *Exec) copyElems(st *State, el *Layout, dst, src *Val, n string) {
-	switch el.Kind {
+// elemLeaf: one scalar cell inside an element of a composite layout: the
+// path of fld steps from the element's address to the cell, its heap key and
+// sort.
+type elemLeaf struct {
+	path []int
+	key  string
+}
+
+// elemLeaves enumerates the cells of one element of layout l (as stored in
+// memory at some element address).
+func (ex *Exec) elemLeaves(l *Layout, hint string, path []int, out *[]elemLeaf) bool {
+	cp := func(extra ...int) []int { return append(append([]int{}, path...), extra...) }
+	switch l.Kind {
 	case LScalar:
+		if hint != "" {
+			*out = append(*out, elemLeaf{cp(), ex.hKey(hint, 0, l.Sort)})
+		} else {
+			*out = append(*out, elemLeaf{cp(), ex.pKey(leafClass(l))})
+		}
+	case LSlice, LString, LIface:
+		sorts := ex.ls.compSorts(l)
+		classes := []string{"Addr", "bv64", "bv64", "bv64"}
+		if l.Kind == LIface {
+			classes = []string{"Int", "Addr"}
+		}
+		for k, s := range sorts {
+			if hint != "" {
+				*out = append(*out, elemLeaf{cp(), ex.hKey(hint, k, s)})
+			} else {
+				*out = append(*out, elemLeaf{cp(-(k + 1)), ex.pKey(classes[k])})
+			}
+		}
+	case LStruct:
+		for i, f := range l.Fields {
+			h := ""
+			if l.Named != nil && ex.P.cleanField(l.Named, i) && f.Kind != LStruct && f.Kind != LArray {
+				h = "H:" + fieldKey(l.Named, i)
+			}
+			if !ex.elemLeaves(f, h, cp(i), out) {
+				return false
+			}
+		}
+	default:
+		return false // arrays inside elements: not modelled (caller falls back to havoc)
+	}
+	return true
+}
+
+// copyElems copies n elements of layout el from src to dst: for every cell
+// of an element, the heap holding it gets a pointwise (lambda) new version.
+func (ex *Exec) copyElems(st *State, el *Layout, dst, src *Val, n string) {
+	if el.Kind == LScalar {
 		k := ex.pKey(leafClass(el))
 		ex.copyCells(st, dst, src, n, k, k)
-	default:
-		// composite elements: havoc the families involved (sound, imprecise)
+		return
+	}
+	var leaves []elemLeaf
+	if !useLambda || !ex.elemLeaves(el, "", nil, &leaves) {
 		fams := map[string]bool{}
 		ex.P.leafFamilies(el, "", func(s string) { fams[s] = true })
 		ex.havocFamilies(st, fams)
+		return
 	}
+	ar := ex.ar
+	dOff := ex.q.def("doff", ar.idxSort(), dst.C[1].T)
+	sOff := ex.q.def("soff", ar.idxSort(), src.C[1].T)
+	nn := ex.q.def("ncp", ar.idxSort(), n)
+	// all reads come from the pre-copy state
+	olds := map[string]*HeapV{}
+	for _, lf := range leaves {
+		if _, ok := olds[lf.key]; !ok {
+			olds[lf.key] = ex.heap(st, lf.key)
+		}
+	}
+	// several leaves may share one heap (e.g. len/cap of a slice element): build one lambda per heap
+	byKey := map[string][]elemLeaf{}
+	var order []string
+	for _, lf := range leaves {
+		if _, ok := byKey[lf.key]; !ok {
+			order = append(order, lf.key)
+		}
+		byKey[lf.key] = append(byKey[lf.key], lf)
+	}
+	for _, key := range order {
+		old := olds[key]
+		body := "(select " + old.term + " a)"
+		for _, lf := range byKey[key] {
+			// a == path(elem(dbase, i)) with i in [dOff, dOff+n): peel the fld steps from the outside in
+			cur := "a"
+			var conds []string
+			for k := len(lf.path) - 1; k >= 0; k-- {
+				conds = append(conds, "((_ is fld) "+cur+")", eq("(fid "+cur+")", intLit(bigInt(lf.path[k]))))
+				cur = "(fbase " + cur + ")"
+			}
+			conds = append(conds, "((_ is elem) "+cur+")", eq("(ebase "+cur+")", dst.C[0].T),
+				ar.cmp("<=", idxT, dOff, "(eidx "+cur+")"), ar.cmp("<", idxT, "(eidx "+cur+")", ar.add(idxT, dOff, nn)))
+			srcAddr := "(elem " + src.C[0].T + " " + ar.add(idxT, sOff, ar.sub(idxT, "(eidx "+cur+")", dOff)) + ")"
+			for _, f := range lf.path {
+				srcAddr = "(fld " + srcAddr + " " + intLit(bigInt(f)) + ")"
+			}
+			body = "(ite " + and(conds...) + " (select " + old.term + " " + srcAddr + ") " + body + ")"
+		}
+		ex.q.n++
+		name := fmt.Sprintf("Hc_%s!%d", sanitize(key), ex.q.n)
+		ex.q.lines = append(ex.q.lines, fmt.Sprintf("(define-fun %s () %s (lambda ((a Addr)) %s))", name, arraySort(ex.heapSort(key)), body))
+		st.heaps[key] = &HeapV{term: name, bases: old.bases}
+	}
+	ex.usesLambda = true
 }
+
+func bigInt(i int) *big.Int { return big.NewInt(int64(i)) }
 
 func (fr *Frame) appendOp(c *ssa.CallCommon, pos token.Pos) *Val {
 	ex := fr.ex
@@ -780,10 +971,15 @@ func (fr *Frame) appendOp(c *ssa.CallCommon, pos token.Pos) *Val {
 			srcKey = ex.s8Key()
 		}
 		ex.copyCells(fr.st, dstNew, t, n, k, srcKey)
-	} else {
+	} else if tIsStr {
 		fams := map[string]bool{}
 		ex.P.leafFamilies(el, "", func(s string) { fams[s] = true })
 		ex.havocFamilies(fr.st, fams)
+	} else {
+		dstOld := &Val{C: []*Val{sv(rbase), sv(roff), s.C[2], sv(rcap)}}
+		ex.copyElems(fr.st, el, dstOld, s, s.C[2].T)
+		dstNew := &Val{C: []*Val{sv(rbase), sv(ex.q.def("aoff2", ar.idxSort(), ar.add(idxT, roff, s.C[2].T))), sv(n), sv(n)}}
+		ex.copyElems(fr.st, el, dstNew, t, n)
 	}
 	return res
 }
@@ -827,4 +1023,72 @@ func (P *Prog) reaches(f, g *ssa.Function) bool {
 	P.reachCache[key] = found
 	P.reachMu.Unlock()
 	return found
+}
+
+// recordCallResult: ghost "last result of a call to <name>" (contract builtins
+// called(f) / callresult(f)). Keys carry the component sort for state merging.
+func (fr *Frame) recordCallResult(callee *ssa.Function, rl *Layout, v *Val) {
+	ex := fr.ex
+	if rl.Kind == LUnsupported {
+		return
+	}
+	defer func() { recover() }() // values the layout cannot flatten are simply not recorded
+	if ex.callResLayout == nil {
+		ex.callResLayout = map[string]*Layout{}
+	}
+	for _, name := range ghostCallNames(callee) {
+		k := 0
+		ex.ls.zip(rl, []*Val{v}, func(srt Sort, ts []string) string {
+			fr.st.ghost[fmt.Sprintf("callres:%s:%d|%s", name, k, srt)] = ts[0]
+			k++
+			return ts[0]
+		})
+		ex.callResLayout[name] = rl
+	}
+}
+
+// recordCallArgs: ghost "arguments of the latest call to <name>" (contract builtin callarg(f, i)).
+func (fr *Frame) recordCallArgs(callee *ssa.Function, argv []ssa.Value, args []*Val) {
+	ex := fr.ex
+	if ex.callArgLayout == nil {
+		ex.callArgLayout = map[string][]*Layout{}
+	}
+	for _, name := range ghostCallNames(callee) {
+		ls := make([]*Layout, len(args))
+		for i, a := range args {
+			l := ex.ls.of(argv[i].Type())
+			ls[i] = l
+			if l.Kind == LUnsupported {
+				continue
+			}
+			func() {
+				defer func() { recover() }()
+				k := 0
+				ex.ls.zip(l, []*Val{a}, func(srt Sort, ts []string) string {
+					fr.st.ghost[fmt.Sprintf("callarg:%s:%d:%d|%s", name, i, k, srt)] = ts[0]
+					k++
+					return ts[0]
+				})
+			}()
+		}
+		ex.callArgLayout[name] = ls
+	}
+}
+
+// ghostCallNames: the names under which a call is entered in the ghost call log:
+// the bare name, and pkg.Name for functions / Type.Name for methods.
+func ghostCallNames(callee *ssa.Function) []string {
+	names := []string{callee.Name()}
+	if recv := callee.Signature.Recv(); recv != nil {
+		t := recv.Type()
+		if p, ok := t.(*types.Pointer); ok {
+			t = p.Elem()
+		}
+		if n, ok := t.(*types.Named); ok {
+			names = append(names, n.Obj().Name()+"."+callee.Name())
+		}
+	} else if callee.Pkg != nil {
+		names = append(names, callee.Pkg.Pkg.Name()+"."+callee.Name())
+	}
+	return names
 }
